@@ -289,6 +289,35 @@ func streamPart() *cli.Part {
 				viol[sig] = &cli.Violation{Part: "stream", Engine: "I", Signature: sig, Message: fmt.Sprintf("%s: read back %q, %v; written %s", sc.name, got, err, sc.want)}
 			}
 		}
+		// the largest length a prefix can denote round-trips, the next one is refused (whole reads only: these records
+		// are too long for the chunk compositions)
+		for _, bc := range []struct {
+			ln  string
+			lt  serializer.SeriLengthPrefixType
+			max int
+		}{{"u8", serializer.SeriLengthPrefixTypeAsByte, 255}, {"u16", serializer.SeriLengthPrefixTypeAsUint16, 65535}} {
+			for _, n := range []int{bc.max, bc.max + 1} {
+				evals++
+				pl := make([]byte, n)
+				for i := range pl {
+					pl[i] = byte(i*7 + 1)
+				}
+				buf := stream.NewByteBuffer()
+				werr := stream.WriteBytesWithSize(buf, pl, bc.lt)
+				sig := fmt.Sprintf("stream|length-boundary|WriteBytesWithSize(%s,%d)", bc.ln, n)
+				if werr != nil {
+					if n <= bc.max {
+						viol[sig] = &cli.Violation{Part: "stream", Engine: "I", Signature: sig, Message: fmt.Sprintf("writing %d bytes with a %s length prefix failed: %v", n, bc.ln, werr)}
+					}
+					continue
+				}
+				data, _ := buf.Bytes()
+				got, rerr := stream.ReadBytesWithSize(bytes.NewReader(data), bc.lt)
+				if rerr != nil || !bytes.Equal(got, pl) {
+					viol[sig] = &cli.Violation{Part: "stream", Engine: "I", Signature: sig, Message: fmt.Sprintf("WriteBytesWithSize accepted %d bytes with a %s length prefix (largest denotable length %d) and wrote %d bytes; reading them back gives %d bytes, %v", n, bc.ln, bc.max, len(data), len(got), rerr)}
+				}
+			}
+		}
 		// ByteBuffer with Seek: overwrite in the middle, write past the end
 		bb := stream.NewByteBuffer()
 		_, _ = bb.Write([]byte{1, 2, 3, 4})
